@@ -53,7 +53,8 @@ CHECKS = {
     ),
     "C05": (
         "offline Mendel/orientation checker on the output VCF + trace monitor on the reported transmission vector "
-        "(interposed PedigreeDPTable), on simulated trios/quartets with perturbed genotypes",
+        "(interposed PedigreeDPTable) incl. soundness and completeness of --recombination-list against it, on simulated "
+        "trios/quartets with perturbed genotypes",
         "Thousands of pedigree runs covering consistent, conflicting and missing genotype combinations with none/sparse/deep read "
         "support; membership, exclusion, read-free genetic phasing and transmission-selected haplotype are judged per variant.",
         "Trusted: own VCF parser/decoders; the transmission convention pinned by the repository's own test helper.",
@@ -77,7 +78,8 @@ CHECKS = {
     ),
     "C20": (
         "conservation monitors over recorded writer events (interposed write_recombination_list / write_changed_genotypes / "
-        "ReadList.write and every solver instance) vs. the three report files; soundness checks against trace and output VCF",
+        "ReadList.write and every solver instance) vs. the three report files; soundness checks against trace and output VCF; "
+        "recombination lines judged against the solver's transmission vector (per child, incl. sibling families, soundness and completeness)",
         "Hundreds of multi-chromosome x multi-family runs per tier with every subset of the three report options.",
         "Trusted: the interposed wrappers only record arguments/return values and delegate.",
         "DESIGN.md §3 C20",
@@ -103,7 +105,8 @@ CHECKS = {
     ),
     "C10": (
         "conservation differ over BAM records + decision-rule oracle recomputed from the alleles returned by the interposed "
-        "PhasedInputReader.read + haplotype-swap metamorphic rerun + list-file consistency",
+        "PhasedInputReader.read + haplotype-swap metamorphic rerun + regions metamorphic rerun (with vs. without --regions) + "
+        "list-file consistency",
         "Hundreds of haplotag runs per tier on enriched BAMs (secondary/supplementary/duplicate/unmapped, old tags, regions, "
         "read groups); every record and every tagging decision is judged.",
         "Trusted: own VCF decoders; allele detection itself is C06's subject.",
